@@ -56,10 +56,11 @@ pub fn gen_kind(tier: Tier, rng: &mut Rng, c03: bool) -> Vec<Sx> {
         let mut hops = vec![];
         let nh = if c03 { 1 } else { rng.range(1, 8) };
         for _ in 0..nh {
-            hops.push(if c03 { Sx::l(vec![Sx::n(0), Sx::i(5), Sx::n(maxc)]) } else { match rng.below(12) {
+            hops.push(if c03 { Sx::l(vec![Sx::n(0), Sx::i(5), Sx::n(maxc)]) } else { match rng.below(13) {
                 0..=5 => Sx::l(vec![Sx::n(0), Sx::i(rng.below(10) as i64), Sx::n(maxc)]),
                 6..=7 => Sx::l(vec![Sx::n(1), Sx::i(rng.below(3) as i64)]),
                 8 => Sx::l(vec![Sx::n(2)]), 9 => Sx::l(vec![Sx::n(3)]), 10 => Sx::l(vec![Sx::n(4)]),
+                12 => Sx::l(vec![Sx::n(6), Sx::i(rng.below(3) as i64)]),
                 _ => Sx::l(vec![Sx::n(5), Sx::i(rng.below(nr) as i64), Sx::b(rng.chance(1, 2))]),
             } });
         }
@@ -123,6 +124,7 @@ pub fn run(case: &Sx) -> (Sx, String) {
             2 => { eng.pop_agenda_focus(); obs.push(Sx::l(vec![active(&eng)])); }
             3 => { eng.clear_agenda_focus(); obs.push(Sx::l(vec![active(&eng)])); }
             4 => { eng.reset_no_loop_tracking(); obs.push(Sx::l(vec![active(&eng)])); }
+            6 => { eng.activate_agenda_group(gname(h.at(1).as_i())); obs.push(Sx::l(vec![active(&eng)])); }
             _ => { let _ = eng.knowledge_base().set_rule_enabled(&format!("r{}", h.at(1).as_i()), h.at(2).as_b()); obs.push(Sx::l(vec![active(&eng)])); }
         }
     }
